@@ -621,7 +621,7 @@ func checkCmd(opts *RunOpts, args []string) int {
 	}
 	if run.QRan {
 		_, vl, cv := boundedListVerdict(opts, prop, known, "bounded.queue.drain", "none.txt", run.QFailing, run.QTotal,
-			"states A,B,C (CEnter vetoes or not), Add A; every script of up to 2 Add/Remove mutations issued from A's final handler, and from a tracer's QueueEnd hook",
+			"states A,B,C (CEnter vetoes or not), Add A; every script of up to 2 Add/Remove mutations issued from A's final handler (WhenQueue subscribed at issue time, or afterwards latest tick first), from a tracer's QueueEnd hook, and from an Eval func on the idle machine",
 			"", "break the queue discipline (nested mutations are queued, run in queue-tick order, none lost, WhenQueue released for accepted and canceled ones)", nil)
 		if vl != "" {
 			violations = append(violations, vl)
